@@ -185,19 +185,20 @@ Qed.
 Lemma remove_nodes_rest g l c g' :
   NoDup (g_nodes g) -> rest_ok g -> remove_nodes g l c = Ok g' -> rest_ok g'.
 Proof.
-  intros Hnd [Hk [Hw Hc]]. rewrite remove_nodes_unfold. intros H.
+  intros Hnd [Hk [Hw Hc]]. unfold remove_nodes. intros H.
   apply bind_ok in H. destruct H as [g1 [Hm H]].
   destruct (mark_removed_all _ _ _ _ Hm) as [Pn [Ep [_ [Ee [_ Ew]]]]].
-  apply bind_ok in H. destruct H as [[g2 s] [Hsn H]]. cbn [fst snd] in H.
-  apply sorted_nodes_frame in Hsn. destruct Hsn as [o ->].
-  apply finish_remove_frame in H. destruct H as [o' ->]. cbn.
   assert (Hnd1 : NoDup (l ++ g_nodes g1)) by (eapply Permutation_NoDup; eauto).
-  split; [|split]; cbn.
-  - intros n Hn. rewrite Ep. apply Hk. eapply Permutation_in; [symmetry; exact Pn|apply in_or_app; auto].
-  - intros x Hx Hn. rewrite Ew in Hx. apply in_app_or in Hx. destruct Hx as [Hx|Hx].
-    + apply (Hw x Hx). eapply Permutation_in; [symmetry; exact Pn|apply in_or_app; auto].
-    + eapply nodup_app_disj; eauto.
-  - rewrite Ep, Ee. exact Hc.
+  assert (R1 : rest_ok g1).
+  { split; [|split].
+    - intros n Hn. rewrite Ep. apply Hk. eapply Permutation_in; [symmetry; exact Pn|apply in_or_app; auto].
+    - intros x Hx Hn. rewrite Ew in Hx. apply in_app_or in Hx. destruct Hx as [Hx|Hx].
+      + apply (Hw x Hx). eapply Permutation_in; [symmetry; exact Pn|apply in_or_app; auto].
+      + eapply nodup_app_disj; eauto.
+    - rewrite Ep, Ee. exact Hc. }
+  destruct (g_sorted g1).
+  - apply finish_remove_frame in H. destruct H as [o' ->]. exact R1.
+  - inversion H; subst. exact R1.
 Qed.
 
 (* ---- remove_nodes_connections *)
@@ -324,20 +325,16 @@ Proof.
   - eapply remove_nodes_rest; eauto. exact (proj1 I).
 Qed.
 
-Lemma remove_successor_inv2 g nd g' : inv2 g -> remove_successor g nd = Ok g' -> inv2 g'.
-Proof.
-  unfold remove_successor. intros Hi. destruct (memb nd (g_nodes g)).
-  - intros H. apply bind_ok in H. destruct H as [g1 [H1 H]].
-    eapply remove_previous_connections_inv2; [|exact H]. eapply remove_nodes_inv2; eauto.
-  - intros H. inversion H; subst. exact Hi.
-Qed.
-
 Lemma remove_successors_nodes_inv2 g n g' : inv2 g -> remove_successors_nodes g n = Ok g' -> inv2 g'.
 Proof.
   unfold remove_successors_nodes. intros Hi H.
   apply bind_ok in H. destruct H as [all [_ H]]. apply bind_ok in H. destruct H as [g1 [H1 H]].
-  apply (foldM_inv remove_successor inv2 all (fun s x s' _ => remove_successor_inv2 s x s') g1 g'); [|exact H].
-  eapply remove_nodes_connections_inv2; eauto.
+  apply bind_ok in H. destruct H as [g2 [H2 H]].
+  eapply (foldM_inv (fun g nd => remove_previous_connections g [nd]) inv2); [| |exact H].
+  - intros s x s' _. apply remove_previous_connections_inv2.
+  - eapply (foldM_inv (fun g nd => remove_nodes g [nd] false) inv2); [| |exact H2].
+    + intros s x s' _. apply remove_nodes_inv2.
+    + eapply remove_nodes_connections_inv2; eauto.
 Qed.
 
 Lemma step_inv2 g o g' : inv2 g -> dom_ok g o = true -> step g o = Ok g' -> inv2 g'.
@@ -355,7 +352,8 @@ Proof.
   - apply inv2_split. split; [eapply step_inv with (o := GetSorted); eauto|].
     apply bind_ok in H. destruct H as [[g1 s] [H1 H]]. inversion H; subst g'.
     apply sorted_nodes_frame in H1. destruct H1 as [o ->]. exact R.
-  - inversion H; subst. exact H2.
+  - inversion H; subst. apply inv2_split. split; [apply copy_graph_inv, I|].
+    unfold copy_graph. destruct (g_sorted g) as [[|x s]|]; exact R.
 Qed.
 
 Lemma run_inv2 ops : forall g g', inv2 g -> run_dom g ops = true -> run g ops = Ok g' -> inv2 g'.
